@@ -85,6 +85,8 @@ func runConcParams(fields []string) string {
 		"api.{env}.example.com/v/{a}/{b}/{c}",
 		"/plain/{x}/*{rest}",
 		"/plain/{x}/*{rest}/tail",
+		"/t/{tenant}/*{any}",
+		"/t/{tenant}/files/*{path}/download",
 	}
 	for _, p := range routes {
 		if _, err := f.Handle("GET", p, h); err != nil {
@@ -123,7 +125,18 @@ func runConcParams(fields []string) string {
 			for i := 0; i < n; i++ {
 				tok := fmt.Sprintf("t%di%d", t, i)
 				var host, path, want string
-				switch r.Intn(7) {
+				switch r.Intn(10) {
+				case 7:
+					// a direct match that leaves a skipped alternative (the catch-all sibling of "files") on the stack
+					host, path = "", "/t/n"+tok+"/files/a"+tok+"/download"
+					want = routes[10] + "|" + showParams([]fox.Param{{Key: "tenant", Value: "n" + tok}, {Key: "path", Value: "a" + tok}})
+				case 8:
+					// the infix sub-lookups all fail (no "/download" at the end), then the catch-all sibling takes the rest
+					host, path = "", "/t/n"+tok+"/files/x"+tok+"/y/z"+tok
+					want = routes[9] + "|" + showParams([]fox.Param{{Key: "tenant", Value: "n" + tok}, {Key: "any", Value: "files/x" + tok + "/y/z" + tok}})
+				case 9:
+					host, path = "", "/t/n"+tok+"/other/"+tok
+					want = routes[9] + "|" + showParams([]fox.Param{{Key: "tenant", Value: "n" + tok}, {Key: "any", Value: "other/" + tok}})
 				case 0:
 					host, path = "s"+tok+".example.com", "/repos/o"+tok+"/r"+tok
 					want = routes[0] + "|" + showParams([]fox.Param{{Key: "sub", Value: "s" + tok}, {Key: "owner", Value: "o" + tok}, {Key: "repo", Value: "r" + tok}})
